@@ -273,6 +273,8 @@ type gcCtx struct {
 	nk     int
 	inLoop int               // d18b: depth of `for … range` bodies being translated
 	fields map[string]string // d18b: Go name of a `target.Field(e)` variable ↦ the Lean index expression
+	views  []gcView          // d18b: views of the target (index 0 = the target itself)
+	vvars  map[string]int    // d18b: Go name of a view variable ↦ its view
 }
 
 type gcV struct {
@@ -313,7 +315,7 @@ func (t *gcTr) translate(name string, fd *ast.FuncDecl) *gcUnit {
 	}
 	u := &gcUnit{name: name, inProgress: true}
 	t.units[name] = u
-	c := &gcCtx{t: t, u: u, fields: map[string]string{}}
+	c := &gcCtx{t: t, u: u, fields: map[string]string{}, vvars: map[string]int{}}
 	en := gcEnv{}
 	var lparams []string
 	if gcRecFuncs[name] {
@@ -582,7 +584,7 @@ func (c *gcCtx) stmts(list []ast.Stmt, en gcEnv, k func(gcEnv) string) string {
 		bs, v := c.expr(call.Args[0], en)
 		arg := c.coerce(call.Args[0], v, p.args[0])
 		c.use(p.lean, "reflect.Value."+sel.Sel.Name)
-		bs = append(bs, bind{c.targetState(), fmt.Sprintf("(%s %s %s)", p.lean, gcLv(c.target), arg)})
+		bs = append(bs, bind{c.targetState(), c.lifted(en, fmt.Sprintf("(%s %s %s)", p.lean, c.curTy(en), arg))})
 		return wrap(bs, next(en))
 
 	case *ast.ReturnStmt:
@@ -820,6 +822,9 @@ func (c *gcCtx) equal(n ast.Node, a, b gcV) string {
 	case a.sh == b.sh && (a.sh == gcKind || a.sh == gcAcc || a.sh == gcStr):
 	case a.sh == gcBool && b.sh == gcBool:
 		return "(" + a.e + " == " + b.e + ")"
+	case a.sh == gcCtyTy && b.sh == gcCtyTy: // d18b: == on cty.Type values (primitive types only)
+		c.use("GoctyGo.tyIs", "== on cty.Type")
+		return "(GoctyGo.tyIs " + a.e + " " + b.e + ")"
 	default:
 		dieAt(n, "comparison of %s with %s", gcShapeNames[a.sh], gcShapeNames[b.sh])
 	}
@@ -888,6 +893,9 @@ func (c *gcCtx) ret(s *ast.ReturnStmt, en gcEnv) string {
 		if _, local := en[f.Name]; local {
 			dieAt(s, "call of the local %s", f.Name)
 		}
+		if out, ok := c.givenFunc(f.Name, call, en); ok { // d18b: functions that stay in the given API
+			return out
+		}
 		u := c.t.ensure(f.Name, call)
 		if len(call.Args) != len(u.params) || call.Ellipsis.IsValid() {
 			dieAt(call, "%s called with %d arguments", f.Name, len(call.Args))
@@ -905,7 +913,7 @@ func (c *gcCtx) ret(s *ast.ReturnStmt, en gcEnv) string {
 				if id, ok := a.(*ast.Ident); !ok || id.Name != c.target {
 					dieAt(a, "target argument %s", src(a))
 				}
-				args = append(args, gcLv(c.target), c.targetState())
+				args = append(args, c.curTy(en), c.curState(en))
 			default:
 				b, v := c.expr(a, en)
 				bs = append(bs, b...)
@@ -916,9 +924,15 @@ func (c *gcCtx) ret(s *ast.ReturnStmt, en gcEnv) string {
 			if !c.u.hasRec {
 				dieAt(call, "%s needs the recursive decoder, which %s does not have", u.name, c.u.name)
 			}
+			if gcOrdFuncs[u.name] {
+				if !gcOrdFuncs[c.u.name] {
+					dieAt(call, "%s needs the map order, which %s does not have", u.name, c.u.name)
+				}
+				args = append([]string{"ord_"}, args...)
+			}
 			args = append([]string{"rec_"}, args...)
 		}
-		return wrap(bs, "("+u.name+" "+strings.Join(args, " ")+")")
+		return wrap(bs, c.lifted(en, "("+u.name+" "+strings.Join(args, " ")+")"))
 	}
 	dieAt(s, "return %s", src(r))
 	return ""
@@ -934,6 +948,9 @@ func (c *gcCtx) expr(e ast.Expr, en gcEnv) ([]bind, gcV) {
 		if sh, ok := en[x.Name]; ok {
 			if sh == gcPath {
 				dieAt(e, "use of the erased path %s", x.Name)
+			}
+			if sh == gcTarget {
+				return nil, gcV{c.viewTyOf(x.Name, en), sh}
 			}
 			return nil, gcV{gcLv(x.Name), sh}
 		}
@@ -972,6 +989,9 @@ func (c *gcCtx) expr(e ast.Expr, en gcEnv) ([]bind, gcV) {
 		}
 		if _, local := en[id.Name]; local {
 			dieAt(e, "field selection %s", src(e))
+		}
+		if v, ok := c.shapeSelector(x); ok { // d18b
+			return nil, v
 		}
 		switch id.Name {
 		case "math":
